@@ -540,7 +540,12 @@ class SymReal:
     def __le__(self, o): return self._c(o, lambda a, b: a <= b)
     def __gt__(self, o): return self._c(o, lambda a, b: a > b)
     def __ge__(self, o): return self._c(o, lambda a, b: a >= b)
-    __hash__ = None
+
+    def __hash__(self):
+        # a constant: all symbolic reals collide, so dict/set/lru_cache look-ups fall through to `==`, which is a
+        # symbolic comparison decided (forked) by the explorer - the faithful model of float keys. A look-up of a
+        # symbolic key among concrete float keys does not find them (stated in ASSUMPTIONS as part of A9).
+        return 0x5E1
 
     def __bool__(self):
         return _cur().decide(self.t != 0)
